@@ -110,6 +110,16 @@ var orderSpecs = []orderSpec{
 		assign: []string{"offset"},
 	},
 	{
+		// C36: the accept loop hands a connection to the broker only while the listener has not been told to stop
+		// (the end flag is read again AFTER Accept returned), and Close raises the flag before it disconnects clients
+		fn: "listeners.(*TCP).Serve", def: "tcpServeOrder",
+		calls: map[string]argMode{"atomic.LoadUint32": allArgs, "l.listen.Accept": noArgs, "establish": noArgs},
+	},
+	{
+		fn: "listeners.(*TCP).Close", def: "tcpCloseOrder",
+		calls: map[string]argMode{"atomic.CompareAndSwapUint32": allArgs, "closeClients": allArgs, "l.listen.Close": noArgs, "l.Lock": noArgs, "l.Unlock": noArgs},
+	},
+	{
 		fn: "mqtt.(*Client).WriteLoop", def: "writeLoopOrder",
 		calls: map[string]argMode{
 			"cl.WritePacket": allArgs, "cl.Lock": noArgs, "cl.Unlock": noArgs, "cl.flushOutbuf": noArgs, "atomic.AddInt32": allArgs,
